@@ -18,6 +18,8 @@
 #pragma once
 
 #include <atomic>
+#include <set>
+#include <string>
 #include <thread>
 
 #include "oomd/dropin/DropInServiceAdaptor.h"
@@ -72,6 +74,9 @@ class FsDropInService : public DropInServiceAdaptor {
   std::string drop_in_dir_;
   std::thread event_loop_;
   std::mutex event_loop_mutex_;
+  // Files of the watched directory that were handed to the engine. Accessed
+  // with event_loop_mutex_ held.
+  std::set<std::string> loaded_files_;
 };
 
 } // namespace Oomd
